@@ -43,6 +43,7 @@ class RefSdoServer:
         self.block_upload_support = block_upload_support
         self.block_upload_size_indicated = block_upload_size_indicated   # s bit of the block upload initiate response
         self.refuse = refuse                    # callable(kind, mux, data|None) -> abort code | None
+        self.read_hook = None                   # callable(mux) -> bytes | None: value computed at upload time
         self.violations = []                    # (mechanism, message)
         self.observations = []                  # things worth reporting that no property forbids
         self.commits = []                       # (mux, bytes) in commit order
@@ -211,6 +212,10 @@ class RefSdoServer:
         code = self.refuse("upload", self.mux, None) if self.refuse else None
         if code is not None:
             return self._abort(code)
+        if self.read_hook is not None:
+            dyn = self.read_hook(self.mux)
+            if dyn is not None:
+                return self._start_upload(bytes(dyn))
         if self.mux not in self.store:
             return self._abort(ABORT_NO_OBJECT)
         return self._start_upload(self.store[self.mux])
